@@ -161,3 +161,46 @@ def run(ctx):
     tab = [short(rp.arg(b, 0)) for b, t in sn]
     ders = rp.calls(resolved_re=r'PROTO_SMACK as std::ops::Deref>::deref$')
     rep.check(r4, len(ders) >= 2, 'table', 'the PROTO_SMACK table is dereferenced %d times for the searches' % len(ders))
+
+    # R5: ingredients of the compiled matcher that the structural claim leans on (necessary conditions, decided by
+    # dataflow; the compiler as a whole is NOT verified)
+    r5 = rep.rule('C10-R5', 'matcher compiler ingredients: the symbol table is injective on characters (incl. the two virtual anchor characters): it stores, compares and indexes with the character itself; the anchor flags of the automaton only ever accumulate (never overwritten by a later pattern); the wildcard fix-up rewrites every column of a row', floor=4)
+    S_ = 'smack::smack::Smack::'
+    a = F.fn(S_ + 'add_symbol')
+    rep.saw(a)
+    cmpk = [peel(rp_, unwraps=False) for rp_ in []]
+    cmp_ok = False
+    for bi in range(a.n):
+        se = a.switch_edges(bi)
+        if se and not a.blocks[bi]['cleanup'] and isinstance(se[0], tuple) and se[0][0] == 'bin' and se[0][1] in ('Eq', 'Ne') and 'symbol_to_char' in short(se[0]):
+            cmp_ok = peel(se[0][3]) == ('param', 2) or peel(se[0][2]) == ('param', 2)
+    st_val = None
+    for bi, b in enumerate(a.blocks):
+        if b['cleanup']:
+            continue
+        for i, st in enumerate(b['stmts']):
+            if st['lhs']['p'] and st['lhs']['p'][0] == 'deref' and len(st['lhs']['p']) == 1:
+                tgt = a.value_of_local(st['lhs']['l'], (bi, i))
+                if 'symbol_to_char' in short(tgt):
+                    st_val = peel(a.rvalue(st['rv'], (bi, i)))
+    idx_ok = any('char_to_symbol' in short(a.argv(b_, 0)) and peel(a.argv(b_, 1)) == ('param', 2) for b_, t_ in a.calls(r'IndexMut::index_mut$|IndexMut<I>>::index_mut$'))
+    rep.check(r5, cmp_ok and st_val == ('param', 2) and idx_ok, 'symbol-table', 'add_symbol compares with, stores and indexes by the character itself: compare %s, stored %s, forward index %s' % (cmp_ok, short(st_val) if st_val is not None else None, idx_ok), '%s:%d' % (a.file, a.line))
+    from rules.c12 import field_writes
+    ap = F.fn(S_ + 'add_pattern')
+    rep.saw(ap)
+    for fld in ['is_anchor_begin', 'is_anchor_end']:
+        ws = [v for _, _, v in field_writes(ap, fld)]
+
+        def accum(v, fld=fld):
+            if const_val(v) == 1:
+                return True
+            v = peel(v)
+            return isinstance(v, tuple) and v[0] == 'bin' and v[1] == 'BitOr' and any(isinstance(peel(x), tuple) and peel(x)[0] == 'entry' and Fn.path_of(peel(x)[1])[-1:] == [('f', fld)] and Fn.root_of(peel(x)[1]) == ('deref', ('param', 1)) for x in (v[2], v[3]))
+        rep.check(r5, bool(ws) and all(accum(v) for v in ws), 'anchor-flag:' + fld, 'writes: %s (each must be `true` or `self.%s | ..`)' % ([short(v)[:50] for v in ws], fld), '%s:%d' % (ap.file, ap.line))
+    fw = F.fn(S_ + 'fixup_wildcards')
+    rep.saw(fw)
+    rngs = [peel(fw.argv(b_, 0), unwraps=False) for b_, t_ in fw.calls(r'IntoIterator>::into_iter$|IntoIterator::into_iter$')]
+    full = [r_ for r_ in rngs if isinstance(r_, tuple) and r_[0] == 'agg' and str(r_[1]).endswith('Range::Range') and const_val(r_[2][0]) == 0 and
+            isinstance(peel(r_[2][1]), tuple) and peel(r_[2][1])[0] == 'bin' and peel(r_[2][1])[1] == 'Shl' and const_val(peel(r_[2][1])[2]) == 1 and 'row_shift' in short(peel(r_[2][1])[3])]
+    rep.check(r5, len(full) == 1, 'wildcard-fixup-covers-row', 'the rewrite loop runs over all 1 << row_shift columns: %s' % [short(r_)[:60] for r_ in rngs], '%s:%d' % (fw.file, fw.line))
+
